@@ -146,19 +146,19 @@ Qed.
 
 Theorem num_ok_cov_sound n ps i p ws k j row e :
   num_ok n ps = true -> nth_error ps i = Some p -> finite_weights p = Some ws ->
-  var_defined (combine (nth 0 (q_cols p) []) ws) = true ->
+  var_defined (combine (nth 0 (q_cols p) []) ws) = true -> Qle_bool 1 (cov_tol ws) = false ->
   nth_error (q_cov p) k = Some row -> nth_error row j = Some e ->
   exists c, e = Some c /\
     if (j =? k)%nat
     then Qabs (spec_cov (nth k (q_cols p) []) ws - c) <= cov_tol ws * Qabs (spec_cov (nth k (q_cols p) []) ws)
     else c == 0.
 Proof.
-  intros H Hn Hw Hv Hr He. pose proof (over_pops_nth _ _ _ _ _ H Hn) as K.
+  intros H Hn Hw Hv Hc Hr He. pose proof (over_pops_nth _ _ _ _ _ H Hn) as K.
   assert (K' : npop_ok n (prev_weights ps i) p = true) by (destruct i; exact K). clear K.
-  unfold npop_ok in K'. rewrite Hw, Hv in K'. repeat (apply andb_true_iff in K' as [K' ?]).
+  unfold npop_ok in K'. rewrite Hw, Hv, Hc in K'. cbn [andb negb] in K'. repeat (apply andb_true_iff in K' as [K' ?]).
   match goal with X : (_ && _ && _) = true |- _ => repeat (apply andb_true_iff in X as [X ?]) end.
-  match goal with X : cov_by _ _ _ = true |- _ => destruct (cov_by_sound _ _ _ _ _ _ _ X Hr He) as (c & -> & Hc) end.
-  exists c. split; [reflexivity|]. destruct (j =? k)%nat; [|exact Hc]. now apply Hc.
+  match goal with X : cov_by _ _ _ = true |- _ => destruct (cov_by_sound _ _ _ _ _ _ _ X Hr He) as (c & -> & Hcc) end.
+  exists c. split; [reflexivity|]. destruct (j =? k)%nat; [|exact Hcc]. now apply Hcc.
 Qed.
 
 (** the model's own numbers pass: a weight / covariance entry equal to what the code computes is
